@@ -250,9 +250,11 @@ def body(PROP, plan):
         if mc_err:
             raise mc_err[0]
 
-        if rb is not None:
+        if rb is not None or res.violations:
+            # a replay, or rejected traces: report now (the self-test below needs clean traces)
             res.coverage = dict(states=sum(m["distinct"] for m in mc_out), transitions=sum(m["generated"] for m in mc_out),
-                                traces_validated_against_impl=len(behs), samples=behs[:1], drift=drift)
+                                traces_validated_against_impl=len(behs), samples=behs[:1], drift=drift, stuck=len(stuck),
+                                rejected=len(res.violations))
             res.finish()
 
         # binding self-test
